@@ -356,7 +356,10 @@ func init() {
 	// in Babble code (concurrent map access between the block API and the
 	// gossip routines) is a node that died while reporting a delivered block.
 	crashHandlers["C02"] = func(r *CaseResult) *Violation {
-		if r.Case.Kind != "soak" || !strings.Contains(r.Note, "fatal error: concurrent map") || !strings.Contains(r.Note, "node.(*Node).GetBlock") {
+		// (the goroutine the runtime blames may be the reader in Node.GetBlock or
+		// the gossip routine writing the block cache)
+		if r.Case.Kind != "soak" || !strings.Contains(r.Note, "fatal error: concurrent map") ||
+			!(strings.Contains(r.Note, "node.(*Node).GetBlock") || strings.Contains(r.Note, "(*InmemStore).GetBlock") || strings.Contains(r.Note, "(*InmemStore).SetBlock")) {
 			return nil
 		}
 		sig := "C02:node-dies-while-reporting-a-delivered-block"
